@@ -79,6 +79,7 @@ class ApiGen:
         self.deps = None
         self.hist = {}
         self.strsize = self.L.consts['STR_SIZE']
+        self.busy = set()
         # rule indices and near-common word sets are expensive: shared by all sessions of a check
         if not hasattr(ctx, '_apicache'):
             ctx._apicache = {}
@@ -153,7 +154,8 @@ class ApiGen:
         for k in range(16):
             if k not in self.slots:
                 return k
-        k = self.rnd.randrange(16)
+        # never evict the seed the running probe works on
+        k = self.rnd.choice([x for x in range(16) if x not in self.busy] or list(range(16)))
         self.free(k)
         return k
 
@@ -605,10 +607,13 @@ class ApiGen:
         o, k = self.load(spec.storage(sec, b, f))
         if o is None or k is None:
             return
+        self.busy.add(k)
         self.probe_roundtrip(k, li, coin)
-        if r.random() < 0.4:
+        # (a full slot table may have evicted the crafted seed in between)
+        if r.random() < 0.4 and k in self.slots:
             self.probe_variants(k, li, coin)
-        self.free(k)
+        if k in self.slots:
+            self.free(k)
 
     def probe_errors(self, k):
         """C02 / C05: substitutions, swaps, wrong coins"""
@@ -709,6 +714,8 @@ class ApiGen:
 
     def probe_variants(self, k, li=None, coin=None):
         r = self.rnd
+        if k not in self.slots:
+            return
         if li is None:
             li = r.choice([i for i in range(self.nl)])
         if coin is None:
@@ -928,6 +935,7 @@ class ApiGen:
         k = self.create()
         if k is None:
             return
+        self.busy.add(k)
         li, coin = r.randrange(self.nl), r.randrange(2048)
         s = self.encode(k, li, coin)
         buf = self.store(k)
@@ -1163,6 +1171,7 @@ class ApiGen:
                 self.free(r.choice(list(self.slots)))
                 continue
             k = r.choice(list(self.slots))
+            self.busy = {k}
             n = r.choices(names, ws)[0]
             if n == 'roundtrip':
                 self.probe_roundtrip(k)
